@@ -35,6 +35,13 @@ class LoopSpec:
         self.opts = opts
 
 
+def reads_confined(loop, stmt, names):
+    """every read of `names` inside the loop happens inside `stmt` (the branch that assigns them)"""
+    def loads(tree):
+        return sum(1 for n in ast.walk(tree) if isinstance(n, ast.Name) and isinstance(n.ctx, ast.Load) and n.id in names)
+    return loads(loop) == loads(stmt)
+
+
 class NotAppendLoop(Exception):
     pass
 
@@ -124,12 +131,26 @@ class LoopMixin:
                         if events[i][0] == events[j][0] and self.feasible(z3.And(
                                 zbool(Part(events[i][0], True, None).guard()), zbool(events[i][1]), zbool(events[j][1]))):
                             raise NotAppendLoop()
+                # several exclusive appends of one iteration (if/else both appending) are one element chosen by
+                # the guards, as the conditional expression of the equivalent comprehension would be
+                if len(events) > 1 and all(ev[0] == events[0][0] for ev in events):
+                    try:
+                        val = events[-1][2]
+                        for rg, gd, v in reversed(events[:-1]):
+                            val = self.merge(zbool(gd), v, val)
+                        gall = events[0][1]
+                        for rg, gd, v in events[1:]:
+                            gall = True if (gall is True or gd is True) else z3.Or(zbool(gall), zbool(gd))
+                        gall = concretize(z3.simplify(zbool(gall))) if gall is not True else True
+                        events = [(events[0][0], gall, val)]
+                    except MergeFail:
+                        pass
                 parts.extend(Part(rg, gd, val) for rg, gd, val in events)
 
         def block(stmts, e, ranges, guard, events):
             """returns the guard under which execution continues after the statements"""
             live = guard
-            for st in stmts:
+            for idx, st in enumerate(stmts):
                 if live is False:
                     break
                 full = conj(Part(ranges, True, None).guard(), live)
@@ -169,7 +190,9 @@ class LoopMixin:
                     lt = block(st.body, e_t, ranges, conj(live, c), events)
                     lf = block(st.orelse, e_f, ranges, conj(live, z3.Not(c)), events)
                     if e_t.vars or e_f.vars:
-                        raise NotAppendLoop()   # temporaries assigned under a condition: not summarised
+                        # temporaries assigned under a condition are fine when nothing after the `if` reads them
+                        if not reads_confined(node, st, set(e_t.vars) | set(e_f.vars)):
+                            raise NotAppendLoop()
                     live = False if (lt is False and lf is False) else (
                         lf if lt is False else (lt if lf is False else z3.Or(zbool(lt), zbool(lf))))
                     continue
@@ -239,7 +262,7 @@ class LoopMixin:
         if not self.fn_stack:
             raise Unsupported('symbolic loop at module level')
         f = self.fn_stack[-1]
-        k = self.loop_ordinal(f.node, node)
+        k = self.loop_ordinal(f.node, getattr(node, 'pyvc_from_while', node))
         spec = self.loop_specs.get((f.module.name, f.qualname, k))
         if spec is None:
             # a loop moved into a helper of the same module keeps its invariant if it iterates the same expression
@@ -247,6 +270,21 @@ class LoopMixin:
             cands = [sp for (m_, q_, k_), sp in self.loop_specs.items()
                      if m_ == f.module.name and sp.opts.get('iter') == src]
             if cands and all(c.fn is cands[0].fn for c in cands):
+                spec = cands[0]
+        if spec is None:
+            # last resort: the invariants declared for this module whose parameters all name things in scope here; used
+            # only when they all say the same thing (same body), and like every invariant only after its obligations
+            # are proved for this loop
+            reserved = {'done', 'pre', 'k', 'n', 'item', 'before'}
+            cands = []
+            for (m_, q_, k_), sp in self.loop_specs.items():
+                if m_ != f.module.name:
+                    continue
+                params = [a.arg for a in sp.fn.node.args.args if a.arg not in reserved]
+                if all(env.has(p_) for p_ in params):
+                    cands.append(sp)
+            bodies = {ast.dump(ast.Module(body=c.fn.node.body, type_ignores=[])) + c.kind for c in cands}
+            if cands and len(bodies) == 1:
                 spec = cands[0]
         if spec is None:
             raise Unsupported(f'loop {k} of {f.qualname} iterates a symbolic sequence and has no invariant')
